@@ -343,6 +343,40 @@ def configure_crosshair():
         _enforce.EnforcedConditions.trace_call = lambda self, frame, fn, binding_target: None
 
 
+    # 4. CrossHair 0.0.110 bug: its patch of list.index(value, start[, stop]) slices the list and returns the
+    #    position INSIDE THE SLICE ([1,2,3,2,1,0,1,0].index(0, 2) gives 3 instead of 5). pyformlang's regex
+    #    reader relies on the absolute position (parenthesis_depths.index(0, index_from)), so under tracing
+    #    Regex("b.((a))") was refused. The patch is replaced by a correct one.
+    import crosshair.core_and_libs  # noqa: F401  (makes the registrations)
+    from crosshair import core as _core
+    from crosshair.libimpl import builtinslib as _bl
+    from crosshair.tracers import NoTracing as _NT, ResumedTracing as _RT
+    _start_default, _stop_default = _bl._LIST_INDEX_START_DEFAULT, _bl._LIST_INDEX_STOP_DEFAULT
+
+    def _list_index(self, value, start=_start_default, stop=_stop_default):
+        with _NT():
+            if not isinstance(self, list):
+                raise TypeError
+            n = len(self)
+            lo = 0 if start is _start_default else start.__index__()
+            hi = n if stop is _stop_default else stop.__index__()
+            if lo < 0:
+                lo = max(lo + n, 0)
+            if hi < 0:
+                hi = max(hi + n, 0)
+            hi = min(hi, n)
+            for idx in range(lo, hi):
+                item = self[idx]
+                with _RT():
+                    isequal = value == item
+                if isequal:
+                    return idx
+            raise ValueError("%r is not in list" % (value,))
+
+    assert list.index in _core._PATCH_REGISTRATIONS
+    _core._PATCH_REGISTRATIONS[list.index] = _list_index
+
+
 _WARM = False
 
 
